@@ -20,16 +20,14 @@ TRUSTED = ["modelled, not verified: strtoll(…,10) of the C library is modelled
 ASSUMPTIONS = ["tokens are the byte strings ConfigParser::strtokFile returns (no NUL, no configuration white space, not starting with # \" ')",
                "long is 64 bits wide (xatol's narrowing check cannot fire); int is 32 bits wide"]
 MANIFEST = {
-    "text": "full for the configured-set reading: for every list of well-formed values/ranges (decimal digits, lo<=hi<=65535, any order, "
-            "overlaps, leading zeros) ACLIntRange::parse accepts and match(i) is true exactly when i lies in the union (theorem "
-            "match_iff_union, every int i < INT_MAX); every accepted list (including the lax spellings strtoll admits) yields ranges inside "
-            "0..65535 and match is exactly membership in them; one rejected token rejects the whole list. match(INT_MAX) computes i+1 in "
-            "int: undefined behaviour, proved as a counterexample and confirmed by UBSan (known finding, unreachable from the two "
-            "port ACLs that use the class)",
+    "text": "full: for every list of well-formed values/ranges (decimal digits, lo<=hi<=65535, any order, overlaps, leading zeros) "
+            "ACLIntRange::parse accepts and match(i) is true exactly when i lies in the union, for every int i including INT_MAX "
+            "(theorem match_iff_union); every accepted list (including the lax spellings strtoll admits) yields ranges inside 0..65535 "
+            "and match is exactly membership in them; one rejected token rejects the whole list with the error of the first one",
     "note": "trusted: Lean kernel, the C++ harness (own self_destruct/debug sink), python oracle; modelled not verified: strtoll, "
             "ConfigParser tokenisation (only verbatim tokens are fed). The anchor src/acl/SplayInserter.h is not used by ACLIntRange in "
-            "this tree (ranges are kept in a std::list, no merging)",
-    "technique": "Lean 4 proof (induction over the token list, checked int arithmetic) + constants translator + ASan/UBSan differential run "
+            "this tree (ranges are kept in a std::list, no merging). Repaired in /repo 21bf4c4: match(INT_MAX) no longer computes i+1",
+    "technique": "Lean 4 proof (induction over the token list) + constants translator + ASan/UBSan differential run "
                  "with exhaustive small scopes",
 }
 
@@ -91,7 +89,7 @@ def probes_for(rng, items, extra=()):
     for _ in range(4):
         ps.add(rng.range(0, 65535))
     ps.update((0, 65535, 65536, -1))
-    ps = [p for p in ps if INT_MIN <= p < INT_MAX]
+    ps = [p for p in ps if INT_MIN <= p <= INT_MAX]
     rng.shuffle(ps)
     return ps[:40]
 
@@ -187,7 +185,6 @@ def cases(rng, tier):
         yield mk("s", [b"7", t], [0, 7, 80, 90, 65535])
     # --- random streams
     n = 12000 if thorough else 1800
-    intmax_left = 3
     for _ in range(n):
         mode = "s" if rng.chance(1, 4) else "a"
         k = rng.below(10)
@@ -196,15 +193,12 @@ def cases(rng, tier):
         if k < 6:          # valid
             extra = []
             if rng.chance(1, 10):
-                extra = [rng.choice([INT_MIN, INT_MIN + 1, INT_MAX - 1, 1 << 16, (1 << 16) + 80, 1 << 30, -65536])]
+                extra = [rng.choice([INT_MIN, INT_MIN + 1, INT_MAX - 1, INT_MAX, 1 << 16, (1 << 16) + 80, 1 << 30, -65536])]
             yield mk(mode, toks, probes_for(rng, items, extra))
         elif k < 8:        # boundary token somewhere in a valid list
             pos = rng.below(len(toks) + 1)
             toks.insert(pos, rng.choice(BOUNDARY_TOKENS))
-            extra = []
-            if intmax_left > 0 and rng.chance(1, 20):     # a few probes at INT_MAX (each one stops the harness process: UBSan)
-                extra = [INT_MAX]
-                intmax_left -= 1
+            extra = [INT_MAX] if rng.chance(1, 6) else []     # regression: match(INT_MAX) used to overflow (fixed in 21bf4c4)
             ps = probes_for(rng, items, [80, 90, 91])
             yield mk(mode, toks, ps + extra)
         else:              # mutation of one token of a valid list
@@ -321,33 +315,8 @@ def oracle(line, impl):
     return None
 
 
-def compare(line, impl, model):
-    if impl == model:
-        return True
-    # undefined behaviour in the model (U for a probe) allows any behaviour of the real code at that probe: UBSan stopping the
-    # process, or any answer (the direct oracle still judges that answer)
-    if model.startswith("ok ") and "U" in model.split(" ")[2]:
-        if impl.startswith("abort:") and "IntRange.cc" in impl:
-            return True
-        mi, mm = impl.split(" "), model.split(" ")
-        if len(mi) == 3 and mi[:2] == mm[:2] and len(mi[2]) == len(mm[2]):
-            return all(b == "U" or a == b for a, b in zip(mi[2], mm[2]))
-    return False
-
-
-def classify(line, impl, why):
-    try:
-        mode, tokens, probes = parse_line(line)
-    except ValueError:
-        return None
-    if INT_MAX in probes and impl.startswith("abort:") and "IntRange.cc" in impl and "signed_integer_overflow" in impl:
-        return "C43-match-intmax-overflow"
-    return None
-
-
 def shrink(line):
-    """big steps first: no tokens, one probe, halves, then single removals (few candidates per round: a failing candidate of
-    the INT_MAX class costs one process start each)"""
+    """big steps first: no tokens, one probe, halves, then single removals"""
     try:
         mode, tokens, probes = parse_line(line)
     except ValueError:
